@@ -30,6 +30,9 @@ func writeManifest() {
 	engines := map[string]map[string]interface{}{}
 	claimed := map[string]bool{}
 	for _, s := range enabledSpecs() {
+		if s.Secondary {
+			continue
+		}
 		claimed[s.Prop] = true
 		checks = append(checks, map[string]interface{}{
 			"property_id":         s.Prop,
